@@ -435,7 +435,7 @@ class Consumer(object):
         if self._processor_d:
             self._processor_d.cancel()
         # Are we waiting to retry a request?
-        if self._retry_call:
+        if self._retry_call and self._retry_call.active():
             self._retry_call.cancel()
         # Are we waiting on a commit request?
         if self._commit_ds:
@@ -445,7 +445,7 @@ class Consumer(object):
         if self._commit_req:
             self._commit_req.cancel()
         # Are we waiting to retry a commit?
-        if self._commit_call:
+        if self._commit_call and self._commit_call.active():
             self._commit_call.cancel()
         # Do we have an auto-commit looping call?
         if self._commit_looper is not None:
